@@ -1,6 +1,7 @@
 import KcpVerif.Model.Kcp
 import KcpVerif.Lemmas.KcpLiveFlush
 import KcpVerif.Lemmas.KcpLiveOps
+import KcpVerif.Lemmas.SysCleanRun
 /-!
 C18 — no retransmission on a clean path; RTO stays within its bounds.
 -/
@@ -255,5 +256,99 @@ example : runOk (Kcp.new 7)
 
 /-- the hypothesis is needed: raising `rx_minrto` to 100 after the RTO dropped to 30 breaks the bound -/
 example : ¬ RtoInv (noDelay { Kcp.new 7 with rx_rto := 30, rx_minrto := 30 } 0 (-1) (-1) (-1)) := by decide
+
+/-! ### `C18_clean_path` (Tier 2): the closed two-endpoint system of Model/Sys.lean
+
+`Sys.State`, `Sys.step`, `Sys.run`: two cores, two FIFO links of constant one-way delay `D`, a global
+millisecond clock (`Nat`; an endpoint sees it mod 2^32), session-style flushing, `Input` of every
+datagram at its arrival time, a writer that `Send`s at arbitrary times and a reader that keeps up.
+`SysC.Clean` (Lemmas/SysCleanInv.lean) is the invariant; `SysC.clean_step` shows that every event
+preserves it.  `SysC.CleanInit` = settings before traffic (decidable), among them the precondition
+`2 * D + interval_B < rx_minrto_A`.  `SysC.RunOk` = the two run hypotheses of the partial theorem. -/
+
+open KcpVerif.Sys KcpVerif.SysC in
+/-- **No retransmission on a clean path.**  On the loss-free, duplicate-free, in-order system with
+`2 D + interval_B < rx_minrto_A`, in EVERY reachable state (any interleaving of the events, any
+`Send` arguments, any `ackNoDelay` settings, clock wrap included):
+
+* nothing panicked;
+* every segment in A's send buffer has been transmitted exactly once (`xmit = 1`; a retransmission
+  of any kind would leave `xmit ≥ 2` on a segment that is still in the buffer after that event);
+* a FULL flush of A taken in this state takes neither the timeout branch nor the fast/early branch
+  (`lost = change = 0`); the same is shown inside the proof for the flushes `Input` triggers.
+
+Partial: it assumes `RunOk` along the run — (1) `RoomOk`: B's receive queue has room for everything A
+has sent and B has not yet taken (this is what the window precondition of the property is there to
+guarantee; deriving it needs the admission rule of C04 composed with the advertised window), and
+(2) `NoWrap`: fewer than 2^31 segments are queued over the whole run (sequence numbers are compared
+through their offset from the first one).  Data flows from A to B only. -/
+theorem C18_clean_path_partial (A B : Kcp) (D t0 : Nat) (ndA ndB : Bool) (hinit : CleanInit A B D)
+    (evs : List Ev) (hrun : RunOk A.snd_nxt (Sys.init A B D t0 ndA ndB) evs) :
+    (Sys.run (Sys.init A B D t0 ndA ndB) evs).panic = false ∧
+    (∀ x ∈ (Sys.run (Sys.init A B D t0 ndA ndB) evs).A.snd_buf, x.xmit = 1) ∧
+    (flX (Sys.run (Sys.init A B D t0 ndA ndB) evs).A true (clk (Sys.run (Sys.init A B D t0 ndA ndB) evs).now)).lost = 0 ∧
+    (flX (Sys.run (Sys.init A B D t0 ndA ndB) evs).A true (clk (Sys.run (Sys.init A B D t0 ndA ndB) evs).now)).change = 0 := by
+  obtain ⟨gab, gba, hc, hnw⟩ := clean_run (p := parOf A B) evs _ [] [] (clean_init A B D t0 ndA ndB hinit) hrun
+  obtain ⟨_, _, hl, hch⟩ := clean_flushA hc hnw 0
+  exact ⟨hc.np, fun x hx => (hc.aseg x hx).2.1, hl, hch⟩
+
+open KcpVerif.Sys KcpVerif.SysC in
+/-- the full statement: the window precondition of the property instead of the run hypotheses -/
+def C18_clean_path_full : Prop :=
+  ∀ (A B : Kcp) (D t0 : Nat) (ndA ndB : Bool), CleanInit A B D → B.rcv_queue = [] →
+    min A.snd_wnd.toNat A.rmt_wnd.toNat ≤ B.rcv_wnd.toNat → 0 < B.rcv_wnd.toNat →
+    ∀ evs : List Ev,
+      (Sys.run (Sys.init A B D t0 ndA ndB) evs).panic = false ∧
+      ∀ x ∈ (Sys.run (Sys.init A B D t0 ndA ndB) evs).A.snd_buf, x.xmit = 1
+
+/-- one event preserves the invariant (the induction step of the theorem above, for reuse) -/
+theorem C18_clean_step {p : SysC.Par} {s : Sys.State} {gab gba : SysC.GLink} (h : SysC.Clean p s gab gba)
+    (hnw : SysC.NoWrap p.base s) (hroom : SysC.RoomOk s) (ev : Sys.Ev) :
+    ∃ gab' gba', SysC.Clean p (Sys.step s ev) gab' gba' := SysC.clean_step h hnw hroom ev
+
+/-- in a clean state no transmitted segment is older than `2 D + interval_B`: its timer is not due -/
+theorem C18_clean_age {p : SysC.Par} {s : Sys.State} {gab gba : SysC.GLink} (h : SysC.Clean p s gab gba) :
+    ∀ x ∈ s.A.snd_buf, itimediff (Sys.clk s.now) x.resendts < 0 ∧ x.fastack = 0 ∧ x.acked = false :=
+  fun x hx => ⟨(h.age (h.aseg x hx)).2.2.2, (h.aseg x hx).2.2.1, (h.aseg x hx).1⟩
+
+/-! non-vacuity: nodelay mode (`rx_minrto = 30`, interval 10 ms), `D = 3`: `2·3 + 10 < 30`; the writer
+sends 3 bytes at t = 1000, A flushes, three ticks later B inputs the datagram, the reader reads, B
+flushes its ACK, three ticks later A inputs it -/
+
+def c18A : Kcp := Kcp.noDelay (Kcp.new 7) 1 10 2 1
+def c18Evs : List Sys.Ev :=
+  [.send [1, 2, 3], .flushA, .tick, .tick, .tick, .dlvB, .read, .flushB, .tick, .tick, .tick, .dlvA]
+
+example : SysC.CleanInit c18A c18A 3 := by decide
+example : SysC.RunOk c18A.snd_nxt (Sys.init c18A c18A 3 1000) c18Evs := by decide
+/-- in the middle of the run the segment is in flight, transmitted once … -/
+example : ((Sys.run (Sys.init c18A c18A 3 1000) (c18Evs.take 5)).A.snd_buf.map (fun x => (x.sn, x.xmit))) = [(0, 1)] ∧
+    (Sys.run (Sys.init c18A c18A 3 1000) (c18Evs.take 5)).now = 1003 := by decide
+/-- … and at the end it is acknowledged and the reader has the bytes -/
+example : (Sys.run (Sys.init c18A c18A 3 1000) c18Evs).A.snd_buf = [] ∧
+    (Sys.run (Sys.init c18A c18A 3 1000) c18Evs).got = [1, 2, 3] ∧
+    (Sys.run (Sys.init c18A c18A 3 1000) c18Evs).now = 1006 := by decide
+/- the timing precondition is needed: with `rx_rto` down at its minimum (30 ms) and `D = 20`
+(`2·20 + 10 ≥ 30`) the schedule stretched to the longer delay retransmits the segment (`xmit = 2`)
+before its ACK is back -/
+set_option maxRecDepth 20000 in
+example : ((Sys.run (Sys.init { c18A with rx_rto := 30 } c18A 20 1000)
+    ([.send [1, 2, 3], .flushA] ++ List.replicate 10 .tick ++ [.flushA, .flushB] ++ List.replicate 10 .tick ++
+     [.dlvB, .read, .flushA, .flushB] ++ List.replicate 10 .tick ++ [.flushA])).A.snd_buf.map (fun x => x.xmit)) = [2] := by
+  decide
+
+/-! a larger run: 3003 bytes in four segments, `ackNoDelay` at B, 60 steps of the canonical scheduler
+(`Sys.auto`: deliver what is due, read, flush when a flush is due, else tick): the run hypotheses hold
+along the whole run, everything is delivered and acknowledged -/
+
+def c18Big : List Sys.Ev :=
+  [.send (List.replicate 3000 5), .send [1, 2, 3]] ++
+    (Sys.auto 60 (Sys.run (Sys.init c18A c18A 3 1000 (ndB := true)) [.send (List.replicate 3000 5), .send [1, 2, 3]]) []).2
+
+set_option maxRecDepth 100000 in
+example : SysC.RunOk c18A.snd_nxt (Sys.init c18A c18A 3 1000 (ndB := true)) c18Big := by decide
+set_option maxRecDepth 100000 in
+example : (Sys.run (Sys.init c18A c18A 3 1000 (ndB := true)) c18Big).got.length = 3003 ∧
+    (Sys.run (Sys.init c18A c18A 3 1000 (ndB := true)) c18Big).A.waitSnd = 0 := by decide
 
 end KcpVerif.Props
